@@ -34,7 +34,11 @@ def run(tier, seed):
     rng = chk.rng
     B = authrun.AuthBench(chk, br)
     quick = tier == "quick"
-    algs = list(SPEC) + [0, -1, -9, rng.randrange(-2 ** 40, 2 ** 40)]
+    from harness import srcdict
+    algs = list(SPEC) + [0, -1, -9, rng.randrange(-2 ** 40, 2 ** 40)] + [a for a in srcdict.alg_ids() if a not in SPEC]
+    # the IANA COSE registry around the registered ids (ES384 -35, ES256K -47, ESP256/384/512 -9/-51/-52, Ed25519 -19, Ed448 -53, RS* variants ...): none of them
+    # denotes a scheme the property lists
+    algs += [a for a in (-35, -47, -19, -51, -52, -53, -9, -10, -40, -41, -42, -260, -261, -262, -65534, -65533, 1, 3, -6, -34) if a not in algs]
     keys = [("P-256", "ES256-P256", False), ("P-384", "ES256-P384", False), ("P-521", "ES256-P521", False), ("raw65", "ES256-P256", True),
             ("RSA", "RS256", False), ("Ed25519", "EdDSA", False)]
     nkeys = 1 if quick else 6
